@@ -311,9 +311,11 @@ C('cross_act._rank_trunc', params={'s': 'arr1', 'eps': 'num'}, returns='num')
 C('cross_act._svd', params={'d': 'num', 'eps': 'num|none'}, returns='tuple(arr3,arr2,arr2)')
 
 # ------------------------------------------------------------------------------------------------------------ als
-C('als.als', flags={'allow_swap': False, 'update_sol': None, 'log': False, 'use_stab': False}, params={'w': 'arr1|none'}, returns='tt',
+C('als.als', params={'w': 'arr1|none'}, returns='tt',
   modifies={'info': 'cont'}, licence=L_INFO + '; Y, info, opts are handed to cb',
-  excluded_flags={'allow_swap': True, 'update_sol': '<not None>', 'log': True, 'use_stab': True},
+  cases=[case('plain', flags={'allow_swap': False, 'update_sol': None, 'log': False, 'use_stab': False}),
+         case('swap', flags={'allow_swap': True, 'update_sol': None, 'log': False, 'use_stab': False}, params={'r': 'num'})],
+  excluded_flags={'update_sol': '<not None>', 'log': True, 'use_stab': True},
   note='als(use_stab=True) with r given assigns the (Z, p) tuple of orthogonalize to Y and fails later: outside C09/C10')
 C('als._lstsq', params={'A': 'arr2', 'y': 'arr1', 'w': 'arr1|none', 'overwrite_a': 'bool', 'update_sol': 'arr1|none'},
   modifies={'A': 'buf', 'y': 'buf'}, returns='tuple(arr,arr|num,num,arr1|none)',
